@@ -206,6 +206,41 @@ def run(ctx):
     ctx.floor("R4.pairs", 6)
 
 
+def predicate_exact(eng, q, kind, n=None):
+    """does the boolean predicate q return True exactly on values of the grammar `kind`?
+    (True paths establish every conjunct; False / raising paths refute one)"""
+    prog = eng.prog
+    fi = prog.funcs.get(q)
+    if fi is None:
+        return False, "function %s not found" % q
+    inline = frozenset(x for x, f in prog.funcs.items() if f.mod.short == "common") - {q}
+    sm = eng.summary(fi, None, inline)
+    x = P(sm.params[0])
+    bad = []
+    n_true = 0
+    for p in sm.paths:
+        facts = set(p.facts)
+        if p.kind == "raise":
+            facts |= set(p.value.conds)
+        st = State(facts=facts)
+        if p.kind == "return" and p.value == C(True):
+            n_true += 1
+            ms = _missing(kind, st, x, n)
+            if ms:
+                bad.append("a True path does not establish: " + ", ".join(ms))
+        elif p.kind == "return" and p.value == C(False):
+            if not _refuted(kind, facts, st, x, n):
+                bad.append("a False path carries no negation of the grammar (well-formed values are turned away)")
+        elif p.kind == "raise":
+            if not _refuted(kind, facts, st, x, n):
+                bad.append("raises %s outside the grammar" % p.value.exc)
+        else:
+            bad.append("returns a non-boolean")
+    if n_true == 0:
+        bad.append("never returns True")
+    return (not bad, "; ".join(sorted(set(bad)))[:300])
+
+
 def _missing(kind, st, x, n):
     if kind in ("hex", "hexpred"):
         return hex_missing(st, x, n)
